@@ -12,6 +12,7 @@ from pyvc.contract import fuc, Contract
 from pyvc.values import (And, Or, Not, Implies, Iff, Ite, Min, Max, ops_binop, ops_cmp, mk_bool, mk_int, zint, zbool,
                          SInt, SObj, STok, is_sym, Unsupported, cur)
 from pyvc.npmodel import SArray
+from pyvc.values import SSlice
 from pyvc import loops as L
 from pyvc import bytesmodel as BM
 from pyvc import models_io as IO
@@ -747,3 +748,78 @@ for _w in ('none', 'both'):
 for _anti in (False, True):
     register(type(f'DiagF_{int(_anti)}', (Diagonal,), dict(anti=_anti, sub=False, win=False)),
              'read.py::SgzReader.read_' + ('anticorrelated' if _anti else 'correlated') + '_diagonal', FAULT_PROPS, [CFG_DEFAULT[3]], modes=('fault',), tag='sub0win0')
+
+
+# ---------------------------------------------------------------------------------------------
+# subvolume[il_a:il_b:il_c, xl_a:xl_b:xl_c, :]  (C02 / C13 / C14): line NUMBER slices with steps on ascending axes
+
+class SubvolumeGetitem(ReadContract):
+    """SubvolumeAccessor.__getitem__ with inline / crossline subscripts by line number (start, stop, step all given) and the whole sample
+    axis, on ascending axes, steps positive multiples of the axis increment (grammar of C13):
+    IndexError iff a start is not a line number, a stop is neither a line number nor one increment past the last, or a range is empty;
+    otherwise the decoded volume at inlines start, start+step, ... (< stop), crosslines likewise, every sample"""
+    cls_name = 'SubvolumeAccessor'
+    given = True
+    incs = (1, 1)
+
+    def inputs(self, c):
+        g, rd = self.reader(c)
+        rd.fields['zslices_int'] = SArray((g.nZ,), lambda idx: idx[0], 'int32')
+        rd.fields['axes_message'] = '<axes>'
+        subs = []
+        info = []
+        for (ax, n), dconc in zip((('ilines', g.nI), ('xlines', g.nX)), self.incs):
+            a0, d0 = rd.fields[ax].prog
+            # the axis increment is a concrete positive constant per variant (keeps the line-number arithmetic linear); origin, counts,
+            # subscripts and step multiples stay symbolic
+            c.assume(eq(d0, dconc))
+            d = dconc
+            rd.fields[ax] = SArray((n,), (lambda a0_, d_: (lambda idx: add(a0_, mul(idx[0], d_))))(a0, d), 'int32')
+            rd.fields[ax].prog = (a0, d)
+            if self.given:
+                st = c.sym_int(ax + '_start', name=f'{ax}.start'); sp = c.sym_int(ax + '_stop', name=f'{ax}.stop')
+                m = c.sym_int(ax + '_m', lo=1, name=f'{ax}.step / increment')
+                subs.append(SSlice(st, sp, mul(m, d)))
+                info.append((a0, d, n, st, sp, m))
+            else:
+                subs.append(SSlice(None, None, None))
+                info.append((a0, d, n, None, None, 1))
+        subs.append(SSlice(None, None, None))
+        return dict(self=rd, _g=g, subscripts=tuple(subs), _info=info)
+
+    def idx(self, a0, d, v):
+        return fdiv(sub(v, a0), d)
+
+    def valid(self, a):
+        conds = []
+        for (a0, d, n, st, sp, m) in a['_info']:
+            if st is None:
+                continue
+            on_st = And(eq(mod(sub(st, a0), d), 0), ge(self.idx(a0, d, st), 0), lt(self.idx(a0, d, st), n))
+            on_sp = And(eq(mod(sub(sp, a0), d), 0), ge(self.idx(a0, d, sp), 0), le(self.idx(a0, d, sp), n))
+            conds += [on_st, on_sp, lt(self.idx(a0, d, st), self.idx(a0, d, sp))]
+        return And(*conds) if conds else True
+
+    def raises(self, c, a):
+        return {'IndexError': Not(self.valid(a))}
+
+    def post(self, c, a, result):
+        g = a['self'].geo
+        lo, hi, ms = [], [], []
+        for (a0, d, n, st, sp, m) in a['_info']:
+            lo.append(0 if st is None else self.idx(a0, d, st))
+            hi.append(n if sp is None else self.idx(a0, d, sp))
+            ms.append(m)
+        c.ensure(mk_bool(isinstance(result, SArray) and len(result.shape) == 3), 'is_3d_array')
+        if not isinstance(result, SArray):
+            return
+        for k in range(2):
+            c.ensure(eq(result.shape[k], S.ceil_div(sub(hi[k], lo[k]), ms[k])), f'shape[{k}].one_entry_per_selected_line')
+        c.ensure(eq(result.shape[2], g.nZ), 'shape[2].all_samples')
+        e = O.skolem_index(c, result.shape)
+        c.ensure(result.fn(e) == O.Vpad(g, add(lo[0], mul(e[0], ms[0])), add(lo[1], mul(e[1], ms[1])), e[2]), 'elem')
+
+
+for _gv, _incs in ((True, (1, 1)), (True, (2, 3)), (False, (2, 3))):
+    register(type('SubvolumeGetitem', (SubvolumeGetitem,), dict(given=_gv, incs=_incs)), 'accessors.py::SubvolumeAccessor.__getitem__', ['C02', 'C13', 'C14'], [CFG_DEFAULT[3], CFG_ZSLICE[0]], modes=('file',),
+             tag=('slices given' if _gv else 'all default') + f',increments {_incs[0]}/{_incs[1]}')
